@@ -46,6 +46,10 @@ def make_input(kind, seed, shape):
         return a
     if kind == "offset":
         return gen.noise(seed, shape) + 5.0
+    if kind in ("int16", "uint8"):
+        # integer-valued images (e.g. an int16 MRC volume): the result is still the real-valued Butterworth product
+        a = np.round(gen.noise(seed, shape) * 40.0 + (100.0 if kind == "uint8" else 0.0))
+        return np.clip(a, 0, 255).astype(np.uint8) if kind == "uint8" else a.astype(np.int16)
     raise ValueError(kind)
 
 
@@ -168,7 +172,7 @@ def cases(draw):
         "shape": draw(gen.box_shapes(1, 9)),
         "cutoff": draw(cutoffs),
         "order": draw(st.integers(1, 4)),
-        "kind": draw(st.sampled_from(["noise", "noise", "const", "delta", "offset"])),
+        "kind": draw(st.sampled_from(["noise", "noise", "const", "delta", "offset", "int16", "uint8"])),
         "seed": draw(gen.seeds),
         "a": draw(st.floats(-3, 3).map(lambda v: round(v, 3))),
         "b": draw(st.floats(-3, 3).map(lambda v: round(v, 3))),
